@@ -531,6 +531,7 @@ def big(tier, rng):
 # ---------------------------------------------------------------- Tier 1: program-capture tie
 
 TIER1 = ("Slalom", "solve_slalom_model")
+TIER1_PRIM = ("SlalomPrim", "solve_slalom_model_prim")
 
 
 def _raw(h, w, origin, bl, gates):
